@@ -26,6 +26,12 @@ EXTRA = {
     r'affine_ops::AffineTransform::<\w+>::translate': ('geo', AFF + 'translate'),
     r'geo_types::Coord::<\w+>::zero': ('geo_types', r'geometry::coord::<impl at geo-types/src/geometry/coord\.rs:\d+:\d+: \d+:27>::zero'),
     r'<Self as algorithm::kernels::Kernel<T>>::orient2d': ('geo', r'algorithm::kernels::Kernel::orient2d'),
+    r'<geo_types::Coord<\w+> as Add>::add': ('geo_types', r'geometry::coord::<impl at [^>]*>::add'),
+    r'<geo_types::Coord<\w+> as Sub>::sub': ('geo_types', r'geometry::coord::<impl at [^>]*>::sub'),
+    r'<geo_types::Coord<\w+> as Mul<\w+>>::mul': ('geo_types', r'geometry::coord::<impl at [^>]*>::mul'),
+    r'<geo_types::Coord<\w+> as Div<\w+>>::div': ('geo_types', r'geometry::coord::<impl at [^>]*>::div'),
+    r'WeightedCentroid::<\w+>::add_assign': ('geo', r'centroid::<impl at [^>]*>::add_assign'),
+    r'CentroidOperation::<\w+>::add_weighted_centroid': ('geo', r'centroid::<impl at [^>]*>::add_weighted_centroid'),
     r'geo_types::Coord::<\w+>::x_y': ('geo_types', r'geometry::coord::<impl at [^>]*>::x_y'),
     r'geo_types::Line::<\w+>::determinant': ('geo_types', r'line::<impl at [^>]*>::determinant'),
     r'geo_types::Line::<\w+>::dx': ('geo_types', r'line::<impl at [^>]*>::dx'),
@@ -266,6 +272,166 @@ def o_relate_shortcut(mir, tier, seed):
             bad.append(z3.And(calls[i][0], calls[j][0]))
     st, info, model = check_unsat('relate_shortcut_selection', [z3.Or(bad)])
     return dict(theory='Bool; geometries, bounding rectangles, Rect::intersects and the graph pipeline opaque', functions=['RelateOperation::compute_intersection_matrix (prefix up to graph construction)'], paths=len(outs), status=st, info=info, model=None, replay=('relate_shortcut', ''))
+
+
+# ---- C06: the accumulation mechanism (dimension dominance) for ALL weights and coordinates
+
+@obligation('C06', 'centroid_dimension_dominance', 'for three contributions of ANY dimensions (0, 1 or 2 each, 27 combinations, in the order given), ANY positive weights and ANY coordinates: CentroidOperation::new + add_centroid x3 + centroid() is the weighted mean of exactly the contributions of maximal dimension (a higher-dimensional contribution replaces lower ones, equal dimensions add); None before any contribution')
+def o_centroid_dominance(mir, tier, seed):
+    C = r'centroid::<impl at geo/src/algorithm/centroid\.rs:44\d:1: [^>]*>::'
+    new, add, cen = mir.find('geo', C + 'new'), mir.find('geo', C + 'add_centroid'), mir.find('geo', C + 'centroid')
+    dims = ['ZeroDimensional', 'OneDimensional', 'TwoDimensional']
+    bad, npaths = [], 0
+    T = RealTheory()
+    w = [T.var('w%d' % i) for i in range(3)]
+    cs = [coord(T, 'c%d' % i) for i in range(3)]
+    assume = [x > 0 for x in w]
+    for d0 in range(3):
+        for d1 in range(3):
+            for d2 in range(3):
+                ds = [d0, d1, d2]
+                ip = Interp(mir, T, EXTRA)
+                op = call1(ip, new, [])
+                if not variant_is(deref(call1(ip, cen, [Ref(lambda: op)])), 'None'):
+                    bad.append(z3.BoolVal(True))
+                cell = [op]
+                for i in range(3):
+                    outs = ip.call_fn(add, [Ref(lambda: cell[0], lambda v: cell.__setitem__(0, v)), Enum(dims[ds[i]]), clone_list(cs[i]), w[i]], z3.BoolVal(True))
+                    if len(outs) != 1:
+                        raise Untranslatable('add_centroid forked on concrete dimensions')
+                res = deref(call1(ip, cen, [Ref(lambda: cell[0])]))
+                npaths += 1
+                if not variant_is(res, 'Some'):
+                    bad.append(z3.BoolVal(True))
+                    continue
+                pt = deref(deref(res.fields[0])[0])
+                mx = max(ds)
+                sel = [i for i in range(3) if ds[i] == mx]
+                W = sum(w[i] for i in sel)
+                bad.append(z3.Or(pt[0] * W != sum(w[i] * cs[i][0] for i in sel), pt[1] * W != sum(w[i] * cs[i][1] for i in sel)))
+    st, info, model = check_unsat('centroid_dimension_dominance', assume + [z3.Or(bad)])
+    return dict(theory='Real (exact field arithmetic; weights > 0); dimensions enumerated concretely (27 combinations)', functions=['CentroidOperation::{new, add_centroid, add_weighted_centroid, centroid}', 'WeightedCentroid::add_assign'], paths=npaths, status=st, info=info, model=None, replay=('centroid_dominance', ''))
+
+
+def clone_list(v):
+    return [clone_list(x) for x in v] if isinstance(v, list) else v
+
+
+# ---- C18: every Polygon constructor / mutator re-closes the rings it let user code touch
+#      (rings opaque => ring size unbounded; 0..3 holes; closure opaque with a symbolic Ok/Err)
+
+@obligation('C18', 'polygon_mutators_reclose', 'for polygons with 0..3 holes of ANY size: Polygon::new closes the exterior and every interior; exterior_mut / try_exterior_mut call LineString::close on the exterior AFTER the user closure on every path (Ok and Err); interiors_mut / try_interiors_mut do so for every interior; try_* return exactly the closure\'s result; interiors_push closes the new ring before appending it as the last interior')
+def o_reclose(mir, tier, seed):
+    P = r'geometry::polygon::<impl at geo-types/src/geometry/polygon\.rs:\d+:1: \d+:29>::'
+    bad, npaths = [], 0
+
+    def setup(nholes, fallible):
+        T = RealTheory()
+        events = []
+        fail = z3.Bool('closure_returns_err')
+        ext = Ring('ext', z3.BoolVal(True))
+        holes = [Ring('hole%d' % i, z3.BoolVal(True)) for i in range(nholes)]
+
+        def call_once(ip, d, pc):
+            events.append((len(events), pc, 'call', None))
+            if fallible:
+                return ('fork', [(z3.Not(fail), Enum('Ok', [[]])), (fail, Enum('Err', ['the-error']))])
+            return []
+        call_once.wants_pc = True
+
+        def close(ip, d, pc):
+            events.append((len(events), pc, 'close', deref(d[0]).rid))
+            return []
+        close.wants_pc = True
+
+        def into(ip, d):
+            return Ring('pushed', z3.BoolVal(True))
+        uf = {'re:<F as FnOnce<.*>>::call_once': call_once,
+              're:line_string::LineString::<\\w+>::close': close,
+              're:<impl Into<LineString<\\w+>> as Into<line_string::LineString<\\w+>>>::into': into}
+        return Interp(mir, T, EXTRA, uf), events, fail, ext, holes
+
+    def closed_after_call(events, pc_r, rid):
+        calls = [i for i, pc, k, _ in events if k == 'call']
+        last = max(calls) if calls else -1
+        return z3.Or([pc for i, pc, k, r in events if k == 'close' and r == rid and i > last] + [z3.BoolVal(False)])
+
+    for nholes in (0, 1, 2, 3):
+        # ---- new
+        ip, events, fail, ext, holes = setup(nholes, False)
+        outs = ip.call_fn(mir.find('geo_types', P + 'new'), [ext, list(holes)], z3.BoolVal(True))
+        npaths += len(outs)
+        for pc, res in outs:
+            rs = rings_of(res)
+            if [r.rid for r in rs] != ['ext'] + ['hole%d' % i for i in range(nholes)]:
+                bad.append(pc)
+            for r in rs:
+                bad.append(z3.And(pc, z3.Not(closed_after_call(events, pc, r.rid))))
+        # ---- the four closure-taking mutators
+        for name, fallible, targets in (('exterior_mut', False, 'ext'), ('try_exterior_mut', True, 'ext'), ('interiors_mut', False, 'holes'), ('try_interiors_mut', True, 'holes')):
+            ip, events, fail, ext, holes = setup(nholes, fallible)
+            poly = [ext, list(holes)]
+            outs = ip.call_fn(mir.find('geo_types', P + name), [Ref(lambda poly=poly: poly), ('user-closure',)], z3.BoolVal(True))
+            npaths += len(outs)
+            bad.append(z3.Not(z3.Or([pc for pc, _ in outs])))
+            ncalls = len([1 for e in events if e[2] == 'call'])
+            if ncalls != 1:
+                bad.append(z3.BoolVal(True))      # the closure must run exactly once
+            for pc, res in outs:
+                want = ['ext'] if targets == 'ext' else ['hole%d' % i for i in range(nholes)]
+                for rid in want:
+                    bad.append(z3.And(pc, z3.Not(closed_after_call(events, pc, rid))))
+                if fallible:
+                    res = deref(res)
+                    if not isinstance(res, Enum) or res.variant not in ('Ok', 'Err'):
+                        raise Untranslatable('%s returned %r' % (name, res))
+                    bad.append(z3.And(pc, (res.variant == 'Err') != fail) if True else pc)
+        # ---- interiors_push
+        ip, events, fail, ext, holes = setup(nholes, False)
+        poly = [ext, list(holes)]
+        outs = ip.call_fn(mir.find('geo_types', P + 'interiors_push'), [Ref(lambda poly=poly: poly), ('new-ring',)], z3.BoolVal(True))
+        npaths += len(outs)
+        for pc, _ in outs:
+            ids = [deref(r).rid for r in poly[1]]
+            if ids != ['hole%d' % i for i in range(nholes)] + ['pushed']:
+                bad.append(pc)
+            bad.append(z3.And(pc, z3.Not(closed_after_call(events, pc, 'pushed'))))
+    st, info, model = check_unsat('polygon_mutators_reclose', [z3.Or(bad)])
+    return dict(theory='Bool (closure outcome symbolic); rings opaque (any size); Vec / IterMut modelled', functions=['Polygon::{new, exterior_mut, try_exterior_mut, interiors_mut, try_interiors_mut, interiors_push}'], paths=npaths, status=st, info=info, model=None, replay=('polygon_reclose', ''))
+
+
+# ---- C19: the Geometry enum forwards every traversal method to the wrapped value's same method
+
+@obligation('C19', 'geometry_enum_traversal_delegation', 'for each of the 10 variants of the Geometry enum: coords_iter, exterior_coords_iter and coords_count forward to exactly the SAME method of the wrapped value (a collection inside the enum forwards exterior_coords_iter to the collection\'s exterior_coords_iter, not to its coords_iter) and wrap the result in the same-named iterator variant')
+def o_geometry_delegation(mir, tier, seed):
+    G = r'algorithm::coords_iter::<impl at geo/src/algorithm/coords_iter\.rs:\d+:1: \d+:45>::'
+    variants = ['Point', 'Line', 'LineString', 'Polygon', 'MultiPoint', 'MultiLineString', 'MultiPolygon', 'GeometryCollection', 'Rect', 'Triangle']
+    bad, npaths = [], 0
+
+    def member(ip, d):
+        return ('delegated',)
+    for method in ('coords_iter', 'exterior_coords_iter', 'coords_count'):
+        fn = mir.find('geo', G + method, sig=r'_1: &geo_types::Geometry<')
+        for v in variants:
+            seen = []
+
+            def deleg(ip, d, pc, argv, seen=seen):
+                seen.append((ip.calls[-1], deref(d[0])))
+                return ('delegated', ip.calls[-1])
+            deleg.wants_raw = True
+            ip = Interp(mir, RealTheory(), EXTRA, {'re:<geo_types::\\w+<\\w+> as (algorithm::)?coords_iter::CoordsIter>::\\w+': deleg})
+            inner = ('inner-value', v)
+            outs = ip.call_fn(fn, [Ref(lambda: Enum(v, [inner]))], z3.BoolVal(True))
+            npaths += len(outs)
+            want_callee = '<geo_types::%s<T> as algorithm::coords_iter::CoordsIter>::%s' % (v, method)
+            ok = len(outs) == 1 and len(seen) == 1 and seen[0][0] == want_callee and seen[0][1] == inner
+            if ok and method != 'coords_count':
+                res = deref(outs[0][1])
+                ok = isinstance(res, Enum) and res.variant == v and deref(res.fields[0]) == ('delegated', want_callee)
+            if not ok:
+                bad.append(z3.BoolVal(True))
+    st, info, model = check_unsat('geometry_enum_traversal_delegation', [z3.Or(bad) if bad else z3.BoolVal(False)])
+    return dict(theory='structural (concrete enum variants; the wrapped values and their CoordsIter methods opaque)', functions=['CoordsIter for Geometry: coords_iter, exterior_coords_iter, coords_count'], paths=npaths, status=st, info=info, model=None, replay=('geometry_delegation', ''))
 
 
 # ---- C05 kernels
